@@ -190,7 +190,7 @@ OPS = [
    M("between-fail-keeps-captures", "            if (captured < lo) {\n                cap_load(s, cs);\n                return NULL;", "            if (captured < lo) {\n                return NULL;", "BACKTRACK")]),
  ("capture", "RULE_CAPTURE", True, 3, ["PEG_CAPTURE_TAGGED"],
   "capture (<-): the captured span is exactly [text, result) inside the window; depth restored; when the grammar uses back-references the capture is also recorded as a tagged capture, in every mode",
-  [M("capture-fastpath-ignores-backref", "if (!s->has_backref && s->mode == PEG_MODE_ACCUMULATE) {\n                janet_buffer_push_bytes(s->scratch, text, (int32_t)(result - text));", "if (s->mode == PEG_MODE_ACCUMULATE) {\n                janet_buffer_push_bytes(s->scratch, text, (int32_t)(result - text));", "SEM"),
+  [M("capture-fastpath-ignores-backref", "            if (!result) return NULL;\n            /* Specialized pushcap - avoid intermediate string creation */\n            if (!s->has_backref && s->mode == PEG_MODE_ACCUMULATE) {", "            if (!result) return NULL;\n            /* Specialized pushcap - avoid intermediate string creation */\n            if (s->mode == PEG_MODE_ACCUMULATE) {", "SEM"),
    M("capture-wrong-span", "pushcap(s, janet_stringv(text, (int32_t)(result - text)), tag);", "pushcap(s, janet_stringv(text, (int32_t)(result - s->text_start)), tag);", "WINDOW")]),
  ("capture_num", "RULE_CAPTURE_NUM", True, 3, [],
   "number: scans exactly the matched span [text, result) inside the window; depth restored",
